@@ -734,3 +734,158 @@ Theorem many_sessions W p h :
 Proof.
   apply many_sessions_gen. repeat split; simpl; auto; constructor.
 Qed.
+
+(** * An offset whose packet has expired and been collected is unknown for good *)
+
+Definition is_suffix {A} (l e : list A) : Prop := exists d, e = d ++ l.
+
+Lemma is_suffix_skipn {A} n (l e : list A) : is_suffix l e -> is_suffix (skipn n l) e.
+Proof.
+  intros [d ->]. exists (d ++ firstn n l). now rewrite <- app_assoc, firstn_skipn.
+Qed.
+
+Lemma step_suffix W t o st e :
+  is_suffix (st_packets st) e ->
+  is_suffix (st_packets (fst (step W t o st))) (e ++ emitted [(t, o)]).
+Proof.
+  intros S. destruct o as [k id opts | s | | q off].
+  - unfold step. simpl. destruct (loggable k); simpl.
+    + destruct S as [d ->]. exists d. now rewrite app_assoc.
+    + now rewrite app_nil_r.
+  - unfold step. simpl. now rewrite app_nil_r.
+  - unfold step. simpl. rewrite app_nil_r.
+    destruct (clean_packets_skipn W t (st_packets st)) as [n ->]. now apply is_suffix_skipn.
+  - rewrite step_restore_fst. simpl. rewrite app_nil_r.
+    destruct (restore_state W t q off st) as [-> _]. exact S.
+Qed.
+
+Lemma run_cons_fst W t o h st :
+  fst (run W ((t, o) :: h) st) = fst (run W h (fst (step W t o st))).
+Proof.
+  unfold run, step. simpl. destruct (step_with clean_packets W t o st) as [st1 r]. simpl.
+  destruct (run_with clean_packets W h st1) as [st2 rs]. reflexivity.
+Qed.
+
+Lemma run_suffix W h : forall st e,
+  is_suffix (st_packets st) e -> is_suffix (st_packets (fst (run W h st))) (e ++ emitted h).
+Proof.
+  induction h as [|[t o] h IH]; intros st e S.
+  - simpl. now rewrite app_nil_r.
+  - rewrite run_cons_fst.
+    change ((t, o) :: h) with ([(t, o)] ++ h). rewrite emitted_app, app_assoc.
+    apply IH. now apply step_suffix.
+Qed.
+
+Lemma last_index_ge {A} (f : A -> bool) l1 x l2 :
+  f x = true -> exists i, last_index f (l1 ++ x :: l2) = Some i /\ (length l1 <= i)%nat.
+Proof.
+  intros F. induction l1 as [|a l1 IH]; simpl.
+  - destruct (last_index f l2) as [j|]; [exists (S j) | exists O]; rewrite ?F; split; auto; lia.
+  - destruct IH as [i [-> L]]. exists (S i). split; auto. lia.
+Qed.
+
+Lemma clean_after_expired W tc l pre p post e :
+  is_suffix l e -> e = pre ++ p :: post -> pkt_expired W tc p = true ->
+  is_suffix (clean_packets W tc l) post.
+Proof.
+  intros [d E] E' X. rewrite E' in E. symmetry in E.
+  apply app_eq_app in E as [x [[Ed El] | [Ep El]]].
+  - (* l = x ++ p :: post with ... no: here d = pre ++ x and p :: post = x ++ l *)
+    destruct x as [|y x]; simpl in El.
+    + (* l = p :: post *)
+      subst l. unfold clean_packets.
+      destruct (last_index_ge (pkt_expired W tc) [] p post X) as [i [LI _]].
+      simpl app in LI. rewrite LI.
+      simpl. apply is_suffix_skipn. now exists [].
+    + inversion El; subst. destruct (clean_packets_skipn W tc l) as [n ->].
+      apply is_suffix_skipn. now exists x.
+  - (* l = x ++ p :: post *)
+    subst l. unfold clean_packets.
+    destruct (last_index_ge (pkt_expired W tc) x p post X) as [i [-> L]].
+    rewrite skipn_app.
+    replace (S i - length x)%nat with (S (i - length x)) by lia.
+    rewrite (skipn_all2 (n:=S i) x) by lia. cbn [app skipn].
+    apply is_suffix_skipn. now exists [].
+Qed.
+
+Lemma final_app W h1 h2 : final W (h1 ++ h2) = fst (run W h2 (final W h1)).
+Proof.
+  unfold final. rewrite run_app. destruct (run W h1 st_empty) as [st1 r1]. simpl.
+  destruct (run W h2 st1) as [st2 r2]. reflexivity.
+Qed.
+
+Theorem fallback_collected_offset W h1 tc h2 t pid pre p post :
+  NoDup (map p_id (emitted (h1 ++ (tc, OClean) :: h2))) ->
+  emitted h1 = pre ++ p :: post -> p_at p + W < tc ->
+  snd (step W t (ORestore pid (p_id p)) (final W (h1 ++ (tc, OClean) :: h2))) = Some None.
+Proof.
+  intros ND E X. rewrite step_restore_snd. f_equal.
+  replace (h1 ++ (tc, OClean) :: h2) with ((h1 ++ [(tc, OClean)]) ++ h2) in * by now rewrite <- app_assoc.
+  rewrite final_app, final_snoc.
+  destruct (inv_final W h1) as [_ [d L] _].
+  assert (is_suffix (st_packets (fst (step W tc OClean (final W h1)))) post) as S1.
+  { unfold step. simpl. eapply clean_after_expired; eauto.
+    - exists d. exact L.
+    - apply Z.ltb_lt. exact X. }
+  pose proof (run_suffix W h2 _ _ S1) as [d2 S2].
+  unfold restore.
+  destruct (sess_get pid _) as [[s td]|]; auto.
+  destruct (sess_expired W t td); auto.
+  destruct (after_offset (p_id p) _) as [rest|] eqn:A; auto.
+  exfalso. apply after_offset_split in A as [l1 [q [EQ Hq]]].
+  rewrite !emitted_app in ND. simpl in ND. rewrite app_nil_r, E in ND.
+  rewrite <- app_assoc in ND. simpl in ND.
+  apply NoDup_map_app_r in ND. simpl in ND. inversion ND as [|? ? Hn _]; subst.
+  apply Hn. rewrite S2, EQ, !map_app. apply in_or_app. right. apply in_or_app. right.
+  simpl. left. exact Hq.
+Qed.
+
+(** * The socket layer on top: same sid / rooms + replay, or a fresh session *)
+
+Lemma connect_fresh W t pid off fs fp st :
+  snd (restore W t pid off st) = None ->
+  snd (connect W t pid off fs fp st) = mkSock fs fp false [fs] [FConnect fs fp].
+Proof.
+  unfold connect. destruct (restore W t pid off st) as [st' r]. simpl. intros ->. reflexivity.
+Qed.
+
+Lemma connect_recovered W t pid off fs fp st s ms :
+  snd (restore W t pid off st) = Some (s, ms) ->
+  snd (connect W t pid off fs fp st) =
+  mkSock (s_sid s) (s_pid s) true (s_rooms s ++ [s_sid s]) (map FReplay ms ++ [FConnect (s_sid s) (s_pid s)]).
+Proof.
+  unfold connect. destruct (restore W t pid off st) as [st' r]. simpl. intros ->. reflexivity.
+Qed.
+
+Lemma step_restore_unwrap W t pid off st r :
+  snd (step W t (ORestore pid off) st) = Some r -> snd (restore W t pid off st) = r.
+Proof. rewrite step_restore_snd. congruence. Qed.
+
+(** never reported recovered unless the restore succeeded, and then with the persisted identity
+    and exactly the missed packets in front of the CONNECT packet *)
+Theorem recovered_socket W h t pid off fs fp :
+  k_recovered (snd (connect W t pid off fs fp (final W h))) = true ->
+  exists s td pre p post,
+    last_persist pid h None = Some (s, td) /\ t <= td + W /\
+    emitted h = pre ++ p :: post /\ p_id p = off /\
+    snd (connect W t pid off fs fp (final W h)) =
+    mkSock (s_sid s) pid true (s_rooms s ++ [s_sid s])
+           (map FReplay (filter (selected s) post) ++ [FConnect (s_sid s) pid]).
+Proof.
+  intros R.
+  destruct (snd (restore W t pid off (final W h))) as [[s ms]|] eqn:RS.
+  - assert (snd (step W t (ORestore pid off) (final W h)) = Some (Some (s, ms))) as ST
+        by (rewrite step_restore_snd; now rewrite RS).
+    destruct (same_sid_rooms _ _ _ _ _ _ _ ST) as [td [LP [PID X]]].
+    destruct (restore_exact _ _ _ _ _ _ _ ST) as [pre [p [post [E [Hp ->]]]]].
+    exists s, td, pre, p, post. repeat split; auto.
+    rewrite (connect_recovered _ _ _ _ _ _ _ _ _ RS). now rewrite PID.
+  - rewrite (connect_fresh _ _ _ _ _ _ _ RS) in R. discriminate.
+Qed.
+
+Theorem fresh_socket W h t pid off fs fp :
+  snd (step W t (ORestore pid off) (final W h)) = Some None ->
+  snd (connect W t pid off fs fp (final W h)) = mkSock fs fp false [fs] [FConnect fs fp].
+Proof.
+  intros H. apply connect_fresh. now apply step_restore_unwrap.
+Qed.
